@@ -34,7 +34,7 @@ func (o Outcome) String() string {
 func (o Outcome) EngineSuccess() bool { return o == OK || o == OKNil }
 
 // Latency classes of a step.
-var latencyClass = [...]int{0, -1, 50, 300, 1000} // µs; -1 = runtime.Gosched
+var latencyClass = [...]int{0, -1, 50, 300, 1000, 10000} // µs; -1 = runtime.Gosched; the last one only after an overrun
 
 // Step is the scripted behaviour of one invocation of an action's plugin.
 type Step struct {
@@ -95,6 +95,9 @@ type Scenario struct {
 	// CancelStartUs != 0: the context handed to Start is cancelled that many µs after Start returned (< 0: at once).
 	// "Cancelling the Context will not Stop execution" (doc of Start), so nothing observable may change.
 	CancelStartUs int
+	// SwapTypes exchanges the request/response types of the two plugin names of each kind in this scenario's registry
+	// (see newRegistry): the same plugin name has different declared types in different scenarios of one process.
+	SwapTypes bool `json:",omitempty"`
 }
 
 func (c *ChecksSpec) groups() []ActionSpec {
